@@ -1,6 +1,6 @@
 (* C19: the XML writer of the CLI. Text content survives escaping and is
    well-formed; a leaf element parses back to its name and text. *)
-From GD Require Import Base.Prelude Model.Strings Model.View Model.Cli.
+From GD Require Import Base.Prelude Model.Strings Model.View Model.Cli Proofs.Str.
 From Coq Require Import ZifyBool ZifyNat ZifyN Lia.
 
 (* characters the writer may put into a document literally *)
@@ -138,4 +138,373 @@ Proof.
     { intros q r g. unfold tag_close. cbn [str app parse_content N.eqb Pos.eqb]. reflexivity. }
     rewrite content_text by (exact Hs || discriminate).
     rewrite drop_prefix_app, Eclose. reflexivity.
+Qed.
+
+(* ================= the whole document ================= *)
+
+(* more fuel never changes a result *)
+Lemma take_text_mono f : forall s acc r d, take_text f s acc = Some r -> take_text (f + d) s acc = Some r.
+Proof.
+  induction f as [|f IH]; intros s acc r d H; [discriminate|].
+  cbn [Nat.add take_text] in *. destruct s as [|c s']; [exact H|].
+  destruct (c =? 60); [exact H|].
+  destruct (c =? 38).
+  - destruct (entity s') as [[x r']|]; [apply IH; exact H|discriminate].
+  - destruct (text_char c && negb (c =? 62)); [apply IH; exact H|discriminate].
+Qed.
+
+Lemma parse_content_mono f : forall s r d, parse_content f s = Some r -> parse_content (f + d) s = Some r.
+Proof.
+  induction f as [|f IH]; intros s r d H; [discriminate|].
+  cbn [Nat.add parse_content] in *. destruct s as [|c s']; [exact H|].
+  destruct (c =? 60).
+  - destruct s' as [|c2 s'']; [discriminate|].
+    destruct (c2 =? 47); [exact H|].
+    destruct (take_name (c2 :: s'') []) as [name r1].
+    destruct (negb (is_name name)); [discriminate|].
+    destruct (classify r1) as [r2|r2|]; [| |discriminate].
+    + destruct (parse_content f r2) as [[rest0 r3]|] eqn:E; [|discriminate].
+      rewrite (IH _ _ d E). exact H.
+    + destruct (parse_content f r2) as [[kids r3]|] eqn:E; [|discriminate].
+      rewrite (IH _ _ d E).
+      destruct (drop_prefix (tag_close name) r3) as [r4|]; [|discriminate].
+      destruct (parse_content f r4) as [[rest0 r5]|] eqn:E2; [|discriminate].
+      rewrite (IH _ _ d E2). exact H.
+  - destruct (take_text (S (length (c :: s'))) (c :: s') []) as [[t r1]|]; [|discriminate].
+    destruct (parse_content f r1) as [[rest0 r2]|] eqn:E; [|discriminate].
+    rewrite (IH _ _ d E). exact H.
+Qed.
+Lemma parse_content_le f g s r : parse_content f s = Some r -> (f <= g)%nat -> parse_content g s = Some r.
+Proof. intros H L. replace g with (f + (g - f))%nat by lia. apply parse_content_mono, H. Qed.
+
+Lemma close_stops q r g : parse_content (S g) (tag_close q ++ r) = Some ([], tag_close q ++ r).
+Proof. unfold tag_close. cbn [str app parse_content N.eqb Pos.eqb]. reflexivity. Qed.
+
+(* one step of the parser on "<k" ... *)
+Lemma open_step k F rest' :
+  is_name k = true ->
+  parse_content (S F) (tag_open k ++ rest') =
+    match parse_content F rest' with
+    | Some (kids, r3) =>
+        match drop_prefix (tag_close k) r3 with
+        | Some r4 => match parse_content F r4 with Some (rest0, r5) => Some (XElem k kids :: rest0, r5) | None => None end
+        | None => None
+        end
+    | None => None
+    end.
+Proof.
+  intros Hk. pose proof (is_name_chars k Hk) as Hkc.
+  destruct (name_first k Hk) as [k0 [kr [Ek [N47 N60]]]].
+  unfold tag_open. cbn [str app]. rewrite <- app_assoc. cbn [app].
+  change (N_of_ascii "<") with 60. change (N_of_ascii ">") with 62.
+  assert (E : parse_content (S F) (60 :: k ++ 62 :: rest') =
+              let '(name, r1) := take_name (k ++ 62 :: rest') [] in
+              if negb (is_name name) then None else
+              match classify r1 with
+              | AEmpty r2 => match parse_content F r2 with Some (rest0, r3) => Some (XElem name [] :: rest0, r3) | None => None end
+              | AOpen r2 =>
+                  match parse_content F r2 with
+                  | Some (kids, r3) =>
+                      match drop_prefix (tag_close name) r3 with
+                      | Some r4 => match parse_content F r4 with Some (rest0, r5) => Some (XElem name kids :: rest0, r5) | None => None end
+                      | None => None
+                      end
+                  | None => None
+                  end
+              | ABad => None
+              end).
+  { rewrite Ek. cbn [app parse_content]. rewrite N47. cbn [N.eqb Pos.eqb]. reflexivity. }
+  rewrite E. clear E.
+  rewrite take_name_stop by (exact Hkc || reflexivity). cbn [rev app]. rewrite Hk. cbn [negb classify N.eqb Pos.eqb].
+  reflexivity.
+Qed.
+Lemma empty_step k F tail :
+  is_name k = true ->
+  parse_content (S F) (tag_empty k ++ tail) =
+    match parse_content F tail with Some (rest0, r3) => Some (XElem k [] :: rest0, r3) | None => None end.
+Proof.
+  intros Hk. pose proof (is_name_chars k Hk) as Hkc.
+  destruct (name_first k Hk) as [k0 [kr [Ek [N47 N60]]]].
+  unfold tag_empty. cbn [str app]. rewrite <- app_assoc. cbn [app].
+  change (N_of_ascii "<") with 60. change (N_of_ascii ">") with 62. change (N_of_ascii "/") with 47.
+  assert (E : parse_content (S F) (60 :: k ++ 47 :: 62 :: tail) =
+              let '(name, r1) := take_name (k ++ 47 :: 62 :: tail) [] in
+              if negb (is_name name) then None else
+              match classify r1 with
+              | AEmpty r2 => match parse_content F r2 with Some (rest0, r3) => Some (XElem name [] :: rest0, r3) | None => None end
+              | AOpen r2 =>
+                  match parse_content F r2 with
+                  | Some (kids, r3) =>
+                      match drop_prefix (tag_close name) r3 with
+                      | Some r4 => match parse_content F r4 with Some (rest0, r5) => Some (XElem name kids :: rest0, r5) | None => None end
+                      | None => None
+                      end
+                  | None => None
+                  end
+              | ABad => None
+              end).
+  { rewrite Ek. cbn [app parse_content]. rewrite N47. cbn [N.eqb Pos.eqb]. reflexivity. }
+  rewrite E. clear E.
+  rewrite take_name_stop by (exact Hkc || reflexivity). cbn [rev app]. rewrite Hk. cbn [negb classify N.eqb Pos.eqb].
+  reflexivity.
+Qed.
+
+(* an element whose body parses to kids, followed by anything that parses *)
+Lemma elem_step k body kids tail nodes r fb ft :
+  is_name k = true ->
+  parse_content fb (body ++ tag_close k ++ tail) = Some (kids, tag_close k ++ tail) ->
+  parse_content ft tail = Some (nodes, r) ->
+  parse_content (S (fb + ft)) (tag_open k ++ body ++ tag_close k ++ tail) = Some (XElem k kids :: nodes, r).
+Proof.
+  intros Hk Hb Ht. rewrite open_step by exact Hk.
+  rewrite (parse_content_le fb (fb + ft) _ _ Hb) by lia.
+  rewrite drop_prefix_app.
+  rewrite (parse_content_le ft (fb + ft) _ _ Ht) by lia. reflexivity.
+Qed.
+
+(* text bodies *)
+Lemma text_body s k tail : texts_ok s = true ->
+  parse_content 2 (xml_escape s ++ tag_close k ++ tail)
+  = Some (match s with [] => [] | _ => [XText s] end, tag_close k ++ tail).
+Proof.
+  intros Hs. destruct s as [|c s'].
+  - cbn [xml_escape flat_map app]. apply close_stops.
+  - apply (content_text (c :: s') k tail 0 Hs). discriminate.
+Qed.
+Lemma leaf_step k s tail nodes r ft :
+  is_name k = true -> texts_ok s = true -> parse_content ft tail = Some (nodes, r) ->
+  parse_content (S (2 + ft)) (wrap (Some k) (xml_escape s) ++ tail) = Some (leaf (Some k) s ++ nodes, r).
+Proof.
+  intros Hk Hs Ht. unfold wrap, leaf. rewrite <- !app_assoc.
+  apply (elem_step k (xml_escape s) _ tail nodes r 2 ft Hk); [apply text_body; exact Hs|exact Ht].
+Qed.
+
+(* ---- values the writer renders to a well-formed document ---- *)
+Fixpoint ok (v : jv) : bool :=
+  match raw_number v with
+  | Some t => texts_ok t
+  | None =>
+      match v with
+      | JObj l => forallb (fun kv => is_name (str (fst kv)) && ok (snd kv)) l
+      | JList l => forallb ok l
+      | JStr s => texts_ok s
+      | _ => true
+      end
+  end.
+(* the fuel the parser needs for the rendering of a value under a key *)
+Fixpoint cost (v : jv) : nat :=
+  match raw_number v with
+  | Some _ => 3
+  | None =>
+      match v with
+      | JObj l => 2 + list_sum (map (fun kv => cost (snd kv)) l)
+      | JList l => list_sum (map cost l)
+      | JNull => 1
+      | _ => 3
+      end
+  end.
+
+Lemma jv_ind' (P : jv -> Prop) :
+  P JNull -> (forall b, P (JBool b)) -> (forall z, P (JNum z)) -> (forall s, P (JStr s)) ->
+  (forall l, Forall P l -> P (JList l)) ->
+  (forall l, Forall (fun kv => P (snd kv)) l -> P (JObj l)) ->
+  forall v, P v.
+Proof.
+  intros Hn Hb Hz Hs Hl Ho.
+  fix IH 1. intros [| b | z | s | l | l].
+  - exact Hn. - apply Hb. - apply Hz. - apply Hs.
+  - apply Hl. induction l as [|x l IHl]; constructor; [apply IH|exact IHl].
+  - apply Ho. induction l as [|[k x] l IHl]; constructor; [apply IH|exact IHl].
+Qed.
+
+Lemma show_Z_texts z : texts_ok (show_Z z) = true.
+Proof.
+  unfold texts_ok. apply forallb_forall. intros c Hc.
+  assert (H : c = 45 \/ (48 <= c /\ c <= 57)).
+  { destruct z as [|p|p]; cbn [show_Z] in Hc.
+    - destruct Hc as [<-|[]]. right. lia.
+    - right. apply (show_N_digits _ _ Hc).
+    - destruct Hc as [<-|Hc]; [left; reflexivity|right; apply (show_N_digits _ _ Hc)]. }
+  unfold text_char. destruct H as [->|[H1 H2]]; [reflexivity|].
+  repeat match goal with |- context [c =? ?n] => replace (c =? n) with false by lia end.
+  replace ((1 <=? c) && (c <=? 8)) with false by lia.
+  replace ((14 <=? c) && (c <=? 31)) with false by lia. reflexivity.
+Qed.
+Lemma show_bool_texts b : texts_ok (show_bool b) = true.
+Proof. destruct b; reflexivity. Qed.
+
+(* the text a scalar is written as *)
+Definition scalar_text (v : jv) : option bytes :=
+  match raw_number v with
+  | Some t => Some t
+  | None => match v with JStr s => Some s | JNum z => Some (show_Z z) | JBool b => Some (show_bool b) | _ => None end
+  end.
+Lemma raw_number_shape l t : raw_number (JObj l) = Some t -> l = [("$raw"%string, JStr t)].
+Proof.
+  destruct l as [|[k x] [|? ?]]; try (cbn; discriminate).
+  - destruct x; try (cbn; discriminate). cbn. destruct (String.eqb k "$raw") eqn:Ek; [|discriminate].
+    intros H. inversion H; subst. apply String.eqb_eq in Ek. subst. reflexivity.
+  - destruct x; cbn; discriminate.
+Qed.
+Lemma scalar_render v t key : scalar_text v = Some t ->
+  json_to_xml key v = wrap key (xml_escape t) /\ xtree key v = leaf key t /\ cost v = 3%nat.
+Proof.
+  unfold scalar_text. destruct v as [| b | z | s | l | l]; try (cbn; discriminate);
+    try (cbn [raw_number]; intros H; inversion H; subst; cbn [json_to_xml xtree cost raw_number]; repeat split; reflexivity).
+  destruct (raw_number (JObj l)) as [t'|] eqn:E; [|discriminate].
+  intros H. inversion H; subst. apply raw_number_shape in E. subst l.
+  cbn. repeat split; reflexivity.
+Qed.
+Lemma scalar_ok v t : scalar_text v = Some t -> ok v = true -> texts_ok t = true.
+Proof.
+  unfold scalar_text. destruct v as [| b | z | s | l | l]; try (cbn; discriminate).
+  - cbn. intros H _. inversion H. apply show_bool_texts.
+  - cbn. intros H _. inversion H. apply show_Z_texts.
+  - cbn. intros H Hok. inversion H; subst. exact Hok.
+  - destruct (raw_number (JObj l)) as [t'|] eqn:E; [|discriminate].
+    intros H Hok. inversion H; subst. apply raw_number_shape in E. subst l. cbn in Hok. exact Hok.
+Qed.
+
+(* unfolding equations for maps *)
+Lemma json_obj key l : raw_number (JObj l) = None ->
+  json_to_xml key (JObj l) = wrap key (flat_map (fun kv => json_to_xml (Some (str (fst kv))) (snd kv)) l).
+Proof. intros E. cbn [json_to_xml]. rewrite E. reflexivity. Qed.
+Lemma xtree_obj key l : raw_number (JObj l) = None ->
+  xtree key (JObj l) = (let kids := flat_map (fun kv => xtree (Some (str (fst kv))) (snd kv)) l in
+                        match key with Some k => [XElem k kids] | None => kids end).
+Proof. intros E. cbn [xtree]. rewrite E. reflexivity. Qed.
+Lemma cost_obj l : raw_number (JObj l) = None -> cost (JObj l) = (2 + list_sum (map (fun kv => cost (snd kv)) l))%nat.
+Proof. intros E. cbn [cost]. rewrite E. reflexivity. Qed.
+Lemma ok_obj l : raw_number (JObj l) = None ->
+  ok (JObj l) = forallb (fun kv => is_name (str (fst kv)) && ok (snd kv)) l.
+Proof. intros E. cbn [ok]. rewrite E. reflexivity. Qed.
+
+Definition renders (v : jv) : Prop :=
+  ok v = true -> forall k tail nodes r ft,
+  is_name k = true -> parse_content ft tail = Some (nodes, r) ->
+  parse_content (cost v + ft) (json_to_xml (Some k) v ++ tail) = Some (xtree (Some k) v ++ nodes, r).
+
+Lemma scalar_renders v t : scalar_text v = Some t -> renders v.
+Proof.
+  intros Hs Hok k tail nodes r ft Hk Ht.
+  destruct (scalar_render v t (Some k) Hs) as [E1 [E2 E3]]. rewrite E1, E2, E3.
+  apply leaf_step; [exact Hk|exact (scalar_ok v t Hs Hok)|exact Ht].
+Qed.
+
+Theorem every_value_renders : forall v, renders v.
+Proof.
+  apply jv_ind'.
+  - (* null *)
+    intros _ k tail nodes r ft Hk Ht. cbn [json_to_xml raw_number xtree cost].
+    change (1 + ft)%nat with (S ft). rewrite empty_step by exact Hk. rewrite Ht. reflexivity.
+  - intros b. apply (scalar_renders (JBool b) (show_bool b)). reflexivity.
+  - intros z. apply (scalar_renders (JNum z) (show_Z z)). reflexivity.
+  - intros s. apply (scalar_renders (JStr s) s). reflexivity.
+  - (* list: the elements one after the other under the same key *)
+    intros l IH Hok k tail nodes r ft Hk Ht.
+    cbn [json_to_xml raw_number xtree cost] in *. cbn [ok raw_number] in Hok.
+    induction l as [|x l IHl].
+    + cbn. exact Ht.
+    + inversion IH as [|? ? Hx Hl]; subst.
+      cbn [forallb] in Hok. apply andb_prop in Hok. destruct Hok as [Hokx Hokl].
+      cbn [flat_map map]. rewrite <- !app_assoc.
+      change (list_sum (cost x :: map cost l)) with (cost x + list_sum (map cost l))%nat.
+      replace (cost x + list_sum (map cost l) + ft)%nat with (cost x + (list_sum (map cost l) + ft))%nat by lia.
+      apply (Hx Hokx k _ _ r _ Hk). apply IHl; assumption.
+  - (* map *)
+    intros l IH Hok k tail nodes r ft Hk Ht.
+    destruct (raw_number (JObj l)) as [t|] eqn:E.
+    + apply (scalar_renders (JObj l) t); try assumption. unfold scalar_text. rewrite E. reflexivity.
+    + rewrite json_obj, xtree_obj, cost_obj by exact E. rewrite ok_obj in Hok by exact E.
+      unfold wrap. rewrite <- !app_assoc.
+      (* the members, up to the close tag *)
+      assert (Hbody : parse_content (list_sum (map (fun kv => cost (snd kv)) l) + 1)
+                        (flat_map (fun kv => json_to_xml (Some (str (fst kv))) (snd kv)) l ++ tag_close k ++ tail)
+                      = Some (flat_map (fun kv => xtree (Some (str (fst kv))) (snd kv)) l, tag_close k ++ tail)).
+      { clear Ht E. induction l as [|[kk x] l IHl].
+        - cbn [flat_map map list_sum fold_right app Nat.add]. apply (close_stops k tail 0).
+        - inversion IH as [|? ? Hx Hl]; subst. cbn [snd] in Hx.
+          cbn [forallb fst snd] in Hok. apply andb_prop in Hok. destruct Hok as [Hokx Hokl].
+          apply andb_prop in Hokx. destruct Hokx as [Hkk Hokx].
+          cbn [flat_map map fst snd]. rewrite <- !app_assoc.
+          change (list_sum (cost x :: map (fun kv => cost (snd kv)) l)) with (cost x + list_sum (map (fun kv => cost (snd kv)) l))%nat.
+          replace (cost x + list_sum (map (fun kv => cost (snd kv)) l) + 1)%nat
+            with (cost x + (list_sum (map (fun kv => cost (snd kv)) l) + 1))%nat by lia.
+          apply (Hx Hokx (str kk) _ _ _ _ Hkk).
+          apply IHl; assumption. }
+      replace (2 + list_sum (map (fun kv => cost (snd kv)) l) + ft)%nat
+        with (S ((list_sum (map (fun kv => cost (snd kv)) l) + 1) + ft)) by lia.
+      cbn [app].
+      apply (elem_step k _ _ tail nodes r _ ft Hk Hbody Ht).
+Qed.
+
+Lemma members_parse l k tail :
+  forallb (fun kv => is_name (str (fst kv)) && ok (snd kv)) l = true ->
+  parse_content (list_sum (map (fun kv => cost (snd kv)) l) + 1)
+    (flat_map (fun kv => json_to_xml (Some (str (fst kv))) (snd kv)) l ++ tag_close k ++ tail)
+  = Some (flat_map (fun kv => xtree (Some (str (fst kv))) (snd kv)) l, tag_close k ++ tail).
+Proof.
+  induction l as [|[kk x] l IHl]; intros Hok.
+  - cbn [flat_map map list_sum fold_right app Nat.add]. apply (close_stops k tail 0).
+  - cbn [forallb fst snd] in Hok. apply andb_prop in Hok. destruct Hok as [Hokx Hokl].
+    apply andb_prop in Hokx. destruct Hokx as [Hkk Hokx].
+    cbn [flat_map map fst snd]. rewrite <- !app_assoc.
+    change (list_sum (cost x :: map (fun kv => cost (snd kv)) l)) with (cost x + list_sum (map (fun kv => cost (snd kv)) l))%nat.
+    replace (cost x + list_sum (map (fun kv => cost (snd kv)) l) + 1)%nat
+      with (cost x + (list_sum (map (fun kv => cost (snd kv)) l) + 1))%nat by lia.
+    apply (every_value_renders x Hokx (str kk) _ _ _ _ Hkk). apply IHl. exact Hokl.
+Qed.
+
+(* the parser never needs more fuel than the rendering has bytes *)
+Lemma cost_le_length : forall v k, (cost v <= length (json_to_xml (Some k) v))%nat.
+Proof.
+  apply (jv_ind' (fun v => forall k, (cost v <= length (json_to_xml (Some k) v))%nat)).
+  - intros k. cbn. unfold tag_empty. rewrite !app_length. cbn. lia.
+  - intros b k. cbn [json_to_xml raw_number cost wrap]. unfold tag_open, tag_close. rewrite !app_length. cbn. lia.
+  - intros z k. cbn [json_to_xml raw_number cost wrap]. unfold tag_open, tag_close. rewrite !app_length. cbn. lia.
+  - intros s k. cbn [json_to_xml raw_number cost wrap]. unfold tag_open, tag_close. rewrite !app_length. cbn. lia.
+  - intros l IH k. cbn [json_to_xml raw_number cost].
+    induction l as [|x l IHl]; [cbn; lia|]. inversion IH as [|? ? Hx Hl]; subst.
+    cbn [flat_map map]. change (list_sum (cost x :: map cost l)) with (cost x + list_sum (map cost l))%nat.
+    rewrite app_length. specialize (Hx k). specialize (IHl Hl). lia.
+  - intros l IH k. destruct (raw_number (JObj l)) as [t|] eqn:E.
+    + destruct (scalar_render (JObj l) t (Some k)) as [E1 [_ E3]]; [unfold scalar_text; rewrite E; reflexivity|].
+      rewrite E1, E3. unfold wrap, tag_open, tag_close. rewrite !app_length. cbn. lia.
+    + rewrite json_obj, cost_obj by exact E. unfold wrap, tag_open, tag_close. rewrite !app_length. cbn [length str].
+      assert (H : (list_sum (map (fun kv => cost (snd kv)) l)
+                   <= length (flat_map (fun kv => json_to_xml (Some (str (fst kv))) (snd kv)) l))%nat).
+      { clear E. induction l as [|[kk x] l IHl]; [cbn; lia|]. inversion IH as [|? ? Hx Hl]; subst. cbn [snd] in Hx.
+        cbn [flat_map map fst snd].
+        change (list_sum (cost x :: map (fun kv => cost (snd kv)) l)) with (cost x + list_sum (map (fun kv => cost (snd kv)) l))%nat.
+        rewrite app_length. specialize (Hx (str kk)). specialize (IHl Hl). lia. }
+      cbn [length app]. lia.
+Qed.
+
+(* the document: for every map value whose keys are XML names and whose strings
+   have no literal control characters, the writer's output parses to exactly the
+   tree the value stands for *)
+Theorem document_roundtrip l :
+  raw_number (JObj l) = None -> ok (JObj l) = true ->
+  xml_parse (xml_document (JObj l)) = Some (XElem (str "data") (xtree None (JObj l))).
+Proof.
+  intros E Hok. rewrite ok_obj in Hok by exact E.
+  unfold xml_document, xml_parse. rewrite json_obj, xtree_obj by exact E. unfold wrap.
+  rewrite drop_prefix_app.
+  set (body := flat_map (fun kv => json_to_xml (Some (str (fst kv))) (snd kv)) l).
+  set (kids := flat_map (fun kv => xtree (Some (str (fst kv))) (snd kv)) l).
+  set (sigma := list_sum (map (fun kv => cost (snd kv)) l)).
+  assert (Hb : parse_content (sigma + 1) (body ++ tag_close (str "data") ++ []) = Some (kids, tag_close (str "data") ++ []))
+    by (apply members_parse; exact Hok).
+  assert (Hdoc : parse_content (S ((sigma + 1) + 1)) (tag_open (str "data") ++ body ++ tag_close (str "data") ++ [])
+                 = Some ([XElem (str "data") kids], [])).
+  { apply (elem_step (str "data") body kids [] [] [] (sigma + 1) 1); [reflexivity|exact Hb|reflexivity]. }
+  rewrite app_nil_r in Hdoc.
+  assert (Hle : (sigma <= length body)%nat).
+  { subst sigma body. clear -l. induction l as [|[kk x] l IHl]; [cbn; lia|].
+    cbn [flat_map map fst snd].
+    change (list_sum (cost x :: map (fun kv => cost (snd kv)) l)) with (cost x + list_sum (map (fun kv => cost (snd kv)) l))%nat.
+    rewrite app_length. pose proof (cost_le_length x (str kk)). lia. }
+  rewrite (parse_content_le _ (S (length (tag_open (str "data") ++ body ++ tag_close (str "data")))) _ _ Hdoc).
+  - reflexivity.
+  - rewrite !app_length. cbn [length tag_open tag_close str app]. lia.
 Qed.
